@@ -215,6 +215,11 @@ func (fv *FV) execRangeFuncMethod(st *State, x *ast.RangeStmt, label string, ord
 	if ce, ok := ast.Unparen(x.X).(*ast.CallExpr); ok {
 		return fv.execRangeSeqCall(st, x, ce, label, ord, keyObj)
 	}
+	if id, ok := ast.Unparen(x.X).(*ast.Ident); ok {
+		if _, isVar := fv.info.ObjectOf(id).(*types.Var); isVar {
+			return fv.execRangeSeqValue(st, x, id, label, ord, keyObj)
+		}
+	}
 	se, ok := ast.Unparen(x.X).(*ast.SelectorExpr)
 	if !ok {
 		fv.fail(x.Pos(), "range over a function value that is not a method value")
@@ -310,6 +315,33 @@ func (fv *FV) rangeOverCall(st *State, x *ast.RangeStmt, callee *types.Func, rec
 	fv.inYieldCall--
 	fv.rangeCallback = nil
 	tr := restore()
+	return fv.rangeBodyLoop(st, x, tr, label, ord, keyObj)
+}
+
+// execRangeSeqValue: for v := range it { body } where it is a function-typed variable (an iter.Seq parameter). Nothing
+// is known about it but what a range function is: it calls its argument some number of times, stops for good when a
+// call returns false, and (assumption, recorded) does nothing else the function under verification can observe. The
+// body is verified over an arbitrary such trace.
+func (fv *FV) execRangeSeqValue(st *State, x *ast.RangeStmt, id *ast.Ident, label string, ord int, keyObj types.Object) *State {
+	sig, ok := fv.typeOf(id).Underlying().(*types.Signature)
+	if !ok || sig.Params().Len() != 1 || sig.Results().Len() != 0 {
+		fv.fail(x.Pos(), "range over %s: not a single-value range function", id.Name)
+	}
+	ysig, ok := sig.Params().At(0).Type().Underlying().(*types.Signature)
+	if !ok || ysig.Params().Len() != 1 {
+		fv.fail(x.Pos(), "range over %s: unsupported yield signature", id.Name)
+	}
+	fv.evalExpr(st, id) // the variable must be readable here
+	argT := ysig.Params().At(0).Type()
+	tr := yieldTrace{n: fv.fresh("itn", sInt), arg: fv.fresh("itarg", arr(sInt, fv.sortOf(argT))), ret: fv.fresh("itret", arr(sInt, sBool)), argT: argT}
+	fv.assume(st, app(">=", tr.n, "0"))
+	fv.assume(st, fmt.Sprintf("(forall ((j Int)) (! (=> (and (<= 0 j) (< j (- %s 1))) (select %s j)) :pattern ((select %s j))))", tr.n, tr.ret, tr.ret))
+	fv.assumptions["range over a function-typed parameter: the iterator calls its argument any number of times, never again after a call returned false, and has no other effect visible to the caller"] = true
+	return fv.rangeBodyLoop(st, x, tr, label, ord, keyObj)
+}
+
+// rangeBodyLoop verifies the body of a range-over-function statement as a loop over the trace tr.
+func (fv *FV) rangeBodyLoop(st *State, x *ast.RangeStmt, tr yieldTrace, label string, ord int, keyObj types.Object) *State {
 	exit := fv.yieldLoop(st, tr, ord, []ast.Node{x.Body}, x.Body, x.Pos(), func(body *State, arg Term) ([]*State, []string) {
 		if keyObj != nil {
 			fv.setVar(body, keyObj, arg)
